@@ -104,8 +104,11 @@ func RoundTrip() {
 			f2 := e.Factory(e.Policy(pol, env.CacheDefault))
 			s2, _ := f2.GetSession("p0")
 			tick()
-			_, err := s2.Encrypt(env.Ctx, []byte{1})
+			r2, err := s2.Encrypt(env.Ctx, []byte{1})
 			vx.Assert("C01.other_encrypt_ok", err == nil)
+			if err == nil && len(recs) < 4 {
+				recs = append(recs, rec{r2, []byte{1}}) // records of other processes must decrypt everywhere too
+			}
 			s2.Close()
 			f2.Close()
 		case opReopenSession:
@@ -125,4 +128,61 @@ func RoundTrip() {
 		check(s3, r)
 	}
 	vx.Reach("C01.end")
+}
+
+// Rotations: the multi-step rotation scenarios spelled out: a record is written, the latest IK and/or SK is
+// revoked (or left to expire), another process encrypts - at the same instant (same CreateDatePrecision bucket,
+// so its insert is refused as a duplicate) or at an arbitrary later one -, the first session encrypts again, and
+// every record must decrypt in the writing session, in the other session and in a brand-new process.
+func Rotations() {
+	e := env.New()
+	pol := env.Policies[vx.Choice("policy", vx.Param("policies"))]
+	fa := e.Factory(e.Policy(pol, vx.Choice("cacheA", vx.Param("caches"))))
+	fb := e.Factory(e.Policy(pol, vx.Choice("cacheB", vx.Param("caches"))))
+	sa, _ := fa.GetSession("p0")
+	sb, _ := fb.GetSession("p0")
+	var recs []rec
+	enc := func(s *ae.Session, tag byte) {
+		p := []byte{tag, vx.Byte("b")}
+		keep := append([]byte(nil), p...)
+		d, err := s.Encrypt(env.Ctx, p)
+		vx.Assert("C01.encrypt_ok", err == nil)
+		if err != nil {
+			vx.Stop()
+		}
+		recs = append(recs, rec{d, keep})
+	}
+	vx.Now()
+	vx.ClockFreeze(true)
+	enc(sa, 1)
+	switch vx.Choice("revoke", 4) {
+	case 1:
+		e.Store.Latest(env.IKID("p0")).Revoked = true
+	case 2:
+		e.Store.Latest(env.SKID()).Revoked = true
+	case 3:
+		e.Store.Latest(env.IKID("p0")).Revoked = true
+		e.Store.Latest(env.SKID()).Revoked = true
+	}
+	if vx.Choice("later", 2) == 1 {
+		vx.ClockFreeze(false)
+		vx.Now()
+		vx.ClockFreeze(true)
+	}
+	enc(sb, 2)
+	if vx.Choice("later2", 2) == 1 {
+		vx.ClockFreeze(false)
+		vx.Now()
+		vx.ClockFreeze(true)
+	}
+	enc(sa, 3)
+	fc := e.Factory(e.Policy(pol, env.CacheDefault))
+	sc, _ := fc.GetSession("p0")
+	for _, s := range []*ae.Session{sa, sb, sc} {
+		for _, r := range recs {
+			out, err := s.Decrypt(env.Ctx, *r.drr)
+			vx.Assert("C01.rotation_roundtrip", vx.And(err == nil, vx.BytesEq(out, r.payload)))
+		}
+	}
+	vx.Reach("C01.rotations_end")
 }
